@@ -3,6 +3,7 @@ import builtins
 import ast
 import sys
 import inspect
+import textwrap
 from collections import OrderedDict
 import logging
 from enum import Enum
@@ -155,7 +156,8 @@ def _introspect_class(
     fis_ = gctx.cached_fun_interactions.get(fis_key)
     if fis_ is not None:
         return fis_
-    src = getsource_class(c)
+    # (dedent: the source of a definition nested in a block - `if ...: def f()` - starts with its indentation)
+    src = textwrap.dedent(getsource_class(c))
     # _logger.debug(f"Starting _introspect_class: {c}: src={src}")
     ast_src = ast.parse(src)
     ast_f: ast.ClassDef = ast_src.body[0]  # type: ignore
@@ -243,7 +245,7 @@ def _introspect_fun(
         fis_ = gctx.cached_fun_interactions.get(fis_key)
         if fis_ is not None:
             return fis_
-        src = inspect.getsource(f)
+        src = textwrap.dedent(inspect.getsource(f))
         # _logger.debug(f"Starting _introspect: {f}: src={src}")
         ast_src = ast.parse(src)
         ast_f = ast_src.body[0]  # type: ignore
